@@ -196,7 +196,8 @@ impl Indexable for ast::Def {
             }
         };
 
-        if let Some(defset_id) = defset_id {
+        // only a named def has an identifier to list under its defset
+        if let (Some(defset_id), true) = (defset_id, self.name().is_some()) {
             let defset = ctx.symbol_map.defset_mut(defset_id);
             defset.add_def(def_id);
         }
